@@ -54,9 +54,10 @@ static void decode_hist(long idx, int *ops, int *n)
 
 #define NTWOH 2
 #define NDLC 2
+#define NPOLLW 2
 static long c01_nconfigs(int tier)
 {
-  return (long) NENDINGS * 3 + (long) NREP * nhist(tier ? 4 : 3) + NTWOH + NDLC;
+  return (long) NENDINGS * 3 + (long) NREP * nhist(tier ? 4 : 3) + NTWOH + NDLC + NPOLLW;
 }
 
 enum { CL_STATUS_EXACT, CL_STATUS_STABLE, CL_NO_SYSCALL_AFTER, CL_REAPED_ONCE, CL_ENDED_IN_BLOCK, CL_FAULT_SURFACED, CL_HANG_OK, CL_TIMEOUT_SEEN };
@@ -212,11 +213,56 @@ static void c01_deadline(int k)
   else vk_hit(CL_REAPED_ONCE);
 }
 
+/* a handle without any stream pipe on the parent's side (everything discarded, or every stream closed): the exit is first learnt through
+ * reproc_poll, the status is asked for afterwards */
+static void c01_poll_then_wait(int k)
+{
+  memset(&vk_cfg, 0, sizeof vk_cfg);
+  vk_cfg.sched_on = 1;
+  vk_cfg.sched_bound = 1;
+  vk_cfg.vlimit = 32;
+  vk_cfg.hello_lite = 1;
+  hx_desc("h_c01|poll-exit-then-wait|%s", k ? "streams-closed-by-the-caller" : "streams-discarded");
+  hx_begin();
+  vk_set_hang_hook(c01_hang);
+  first_status = -1;
+  reproc_options o;
+  memset(&o, 0, sizeof o);
+  if (!k) o.redirect.discard = true;
+  vk_script("X7");
+  P = hx_new();
+  vk_cfg.sched_on = 0;
+  int r = hx_start(P, hx_helper_argv(), o);
+  vk_cfg.sched_on = 1;
+  if (r < 0 || vk_nchildren != 1) vk_finish(OUT_INFRA, "start failed: %d", r);
+  CH = &vk_children[0];
+  if (k) { hx_close(P, REPROC_STREAM_IN); hx_close(P, REPROC_STREAM_OUT); hx_close(P, REPROC_STREAM_ERR); }
+  for (int round = 0; round < 2; round++) {
+    reproc_event_source src = { P, REPROC_EVENT_EXIT, 0 };
+    r = hx_poll(&src, 1, REPROC_INFINITE);
+    if (r != 1 || !(src.events & REPROC_EVENT_EXIT)) vk_violation("C09", "exit-reported", "h_c01|poll-exit-then-wait", "poll %d for the exit returned %s with events %x", round, hx_errname(r), (unsigned) src.events);
+  }
+  r = hx_wait(P, 0);
+  check_status_result("wait(0) after poll reported the exit", r, hx_last_api);
+  if (r != 7) vk_violation("C01", "status-exact", "h_c01|poll-exit-then-wait", "wait(0) after poll reported the exit returned %s, the child exited with 7", hx_errname(r));
+  reproc_stop_actions a = { { REPROC_STOP_WAIT, 2 }, { REPROC_STOP_NOOP, 0 }, { REPROC_STOP_NOOP, 0 } };
+  r = hx_stop(P, a);
+  check_status_result("stop{wait 2}", r, hx_last_api);
+  hx_destroy(P);
+  if (CH->reaps != 1) vk_violation("C01", "reaped-once", "h_c01|poll-exit-then-wait", "the child was reaped %d times", CH->reaps);
+  else vk_hit(CL_REAPED_ONCE);
+  siginfo_t si;
+  memset(&si, 0, sizeof si);
+  int w = waitid(P_PID, (id_t) CH->pid, &si, WEXITED | WNOHANG | WNOWAIT);
+  if (!(w < 0 && errno == ECHILD)) vk_violation("C01", "no-zombie", "h_c01|poll-exit-then-wait", "the child is still waitable");
+}
+
 static void c01_run(int tier, long cfg)
 {
   struct ending en;
   int ops[4], nops = 0;
   long na = (long) NENDINGS * 3;
+  if (cfg >= na + (long) NREP * nhist(tier ? 4 : 3) + NTWOH + NDLC) { c01_poll_then_wait((int) (cfg - na - (long) NREP * nhist(tier ? 4 : 3) - NTWOH - NDLC)); return; }
   if (cfg >= na + (long) NREP * nhist(tier ? 4 : 3) + NTWOH) { c01_deadline((int) (cfg - na - (long) NREP * nhist(tier ? 4 : 3) - NTWOH)); return; }
   if (cfg >= na + (long) NREP * nhist(tier ? 4 : 3)) { c01_two_handles((int) (cfg - na - (long) NREP * nhist(tier ? 4 : 3))); return; }
   if (cfg < na) {
